@@ -9,5 +9,6 @@ CONSTANTS
   FixTailOrder = TRUE
   FreshTmp = TRUE
   KnownRebase = TRUE
-INVARIANTS NoCrashOK DurSane AtRest PowerLoss1
+  RecoverFsync = TRUE
+INVARIANTS NoCrashOK DurSane AtRest PowerLoss1 PowerLoss2
 CHECK_DEADLOCK FALSE
